@@ -23,7 +23,7 @@ func stepsFor(prop string, r *Rng) int {
 	case "C05", "C10", "C13", "C18":
 		return 8 + r.Intn(16)
 	case "C12":
-		return 6 + r.Intn(10)
+		return 8 + r.Intn(14)
 	}
 	// swarm: many short, some long
 	switch r.Intn(4) {
@@ -49,7 +49,9 @@ func RunSeed(prop, profile string, seed uint64, index int) (*Trace, *Stats) {
 	w.Keys = pickKeys(r)
 	n := stepsFor(prop, r)
 	tr := &Trace{Prop: prop, Profile: profile, Seed: seed, Index: index}
-	for i := 0; i < n; i++ {
+	// a scenario that has started is always completed (bounded), so that the
+	// operation it sets the stage for is actually reached
+	for i := 0; i < n || (w.PendingLen() > 0 && i < n+90); i++ {
 		st := w.Generate(r)
 		w.Exec(&st)
 		tr.Steps = append(tr.Steps, st)
